@@ -1,7 +1,8 @@
 (* C01 - Label indexing returns exactly the data stored at those labels. *)
 From DA Require Import Prelude NDArray Array PyRT.
 From DA.Model Require Import Value Reshape SliceSpec Indexing.
-From DA.Proofs Require Import C10_proofs C01_proofs C17_proofs C01_complete.
+From Coq Require Import Qabs.
+From DA.Proofs Require Import C10_proofs C01_proofs C17_proofs C01_complete C01_tolerance.
 Open Scope nat_scope.
 
 (* a scalar label resolves to the first position carrying that label ... *)
@@ -98,6 +99,37 @@ Print Assumptions C01_axes_int.
 Print Assumptions C01_axes_full.
 
 (* non-vacuity *)
+(* "... unless a tolerance is given, in which case the nearest label is used if and only if it lies within the
+   tolerance": on a non-empty numeric axis [qs], for a numeric request [qv] and a tolerance t, either a position is
+   returned - it is then in range, its label is a NEAREST one (the first such in stored order) and lies within t -
+   or IndexError is raised and then EVERY label is farther than t.  [dists qs qv] = |label - request| per position. *)
+Theorem C01_tolerance : forall ls qs v qv t,
+  label_num v = Some qv ->
+  mapM (fun x => match label_num x with Some q => Ok q | None => Err TypeError end) ls = Ok qs ->
+  qs <> [] ->
+  (exists m, locate_one_tol ls v (TolQ t) = Ok m /\ m < List.length qs /\
+             (nth m (dists qs qv) 0 <= t)%Q /\
+             (forall j, j < List.length qs -> (nth m (dists qs qv) 0 <= nth j (dists qs qv) 0)%Q) /\
+             (forall j, j < m -> (nth m (dists qs qv) 0 < nth j (dists qs qv) 0)%Q))
+  \/ (locate_one_tol ls v (TolQ t) = Err IndexError /\
+      forall j, j < List.length qs -> (t < nth j (dists qs qv) 0)%Q).
+Proof. exact locate_one_tol_spec. Qed.
+Print Assumptions C01_tolerance.
+(* .nloc / tol='inf': the nearest label, always *)
+Theorem C01_nearest : forall ls qs v qv,
+  label_num v = Some qv ->
+  mapM (fun x => match label_num x with Some q => Ok q | None => Err TypeError end) ls = Ok qs ->
+  qs <> [] ->
+  exists m, locate_one_tol ls v TolInf = Ok m /\ m < List.length qs /\
+            (forall j, j < List.length qs -> (nth m (dists qs qv) 0 <= nth j (dists qs qv) 0)%Q).
+Proof. exact locate_one_tol_inf. Qed.
+Print Assumptions C01_nearest.
+Example C01_tolerance_nonvacuous :
+  locate_one_tol [L_ 10; L_ 30; L_ 20] (L_ 22) (TolQ 3) = Ok 2 /\
+  locate_one_tol [L_ 10; L_ 30; L_ 20] (L_ 25) (TolQ 3) = Err IndexError /\
+  locate_one_tol [L_ 10; L_ 30; L_ 20] (L_ 25) TolInf = Ok 1.
+Proof. repeat split; vm_compute; reflexivity. Qed.
+
 (* completeness: argsort + searchsorted + clip + guard finds EVERY label that is on the axis (duplicates and any
    stored order included), so the list lookup fails exactly when some requested label is absent *)
 Theorem C01_locate_many_complete : forall ls vs,
